@@ -241,12 +241,13 @@ type joeCanceller struct {
 }
 
 type joeWorld struct {
-	rc  *RunCtx
-	o   *Outcome
-	ch  *Chooser
-	sim *verifhook.Sim
-	j   *sse.Joe
-	rep *simReplayer
+	usedEmptyID bool
+	rc          *RunCtx
+	o           *Outcome
+	ch          *Chooser
+	sim         *verifhook.Sim
+	j           *sse.Joe
+	rep         *simReplayer
 
 	faults    bool
 	noWitness bool          // Joe runs without any Replayer: no Put-order witness
@@ -307,6 +308,12 @@ func (w *joeWorld) newMessage(topics []string) *pubMsg {
 	}
 	if wantID {
 		m.ID = sse.ID("id" + strconv.Itoa(w.msgSeq))
+		if !w.usedEmptyID && w.ch.Chance(1, 10, "set-but-empty message id") {
+			// the empty string is a legal, set ID: it is not the unset ID of a subscriber that has nothing to resume from
+			m.ID = sse.ID("")
+			w.usedEmptyID = true
+			w.o.probe("message with the set-but-empty ID published")
+		}
 	} else if w.repKind == 0 && w.ch.Chance(1, 2, "message id") {
 		m.ID = sse.ID("id" + strconv.Itoa(w.msgSeq))
 	}
@@ -432,6 +439,7 @@ func (w *joeWorld) generate() {
 			s.selfCancel = ch.Chance(1, 2, "failing call cancels own context")
 			s.sub.Sticky = ch.Chance(3, 4, "a broken subscriber stays broken")
 			s.sub.FlushOnly = s.sub.FailFlushAt > 0 && ch.Chance(1, 2, "only flushes keep failing")
+			s.sub.Disguise = drawDisguise(ch, "subscriber failure")
 		}
 		s.sub.OnCall = w.onSubCall(s)
 		w.subs = append(w.subs, s)
@@ -472,7 +480,8 @@ func (w *joeWorld) generate() {
 
 	// extra Shutdown tasks
 	nShut := 0
-	if prop == "C07" {
+	if prop == "C07" || (prop == "C06" && ch.Chance(1, 3, "several shutdown tasks")) {
+		// overlapping Shutdown calls (several RegisterOnShutdown hooks, Server.Shutdown next to Joe.Shutdown)
 		nShut = ch.Weighted([]int{1, 3, 2, 1}, "shutdown tasks")
 	} else if ch.Chance(1, 4, "early shutdown") {
 		nShut = 1
@@ -1058,6 +1067,18 @@ func (w *joeWorld) checkSubscribeResults() {
 			if !errors.Is(s.retErr, own) {
 				clause := "subscribe-result"
 				o.violate("C06", clause, "sub%d: its own %v was returned to Joe, but Subscribe returned %v (cancel requested: %v)", s.id, own, s.retErr, s.cancelReq != 0)
+				if s.sub.Failed != nil {
+					o.violate("C17", "failed-subscriber-result", "sub%d: its Send/Flush failed with %v, but Subscribe returned %v instead of that error", s.id, s.sub.Failed, s.retErr)
+				}
+			}
+			// "only that subscriber is removed": nothing is sent to it after the call that failed
+			for i, c := range s.sub.Calls {
+				if c.Err != nil {
+					if n := len(s.sub.Calls) - i - 1; n > 0 {
+						o.violate("C17", "failed-subscriber-not-removed", "sub%d: %d further Send/Flush calls after the call that failed with %v", s.id, n, c.Err)
+					}
+					break
+				}
 			}
 		case errors.Is(s.retErr, sse.ErrProviderClosed):
 			if w.shutdownSeq == 0 || w.shutdownSeq > s.returned {
@@ -1255,7 +1276,7 @@ func (w *joeWorld) checkDeliveries() {
 			}
 			if mismatch {
 				pr, clause := prop, "window"
-				if s.idLpos >= 0 || s.idClass == idNever || s.idClass == idUnset && w.rep.inner != nil && false {
+				if s.idLpos >= 0 || s.idClass == idNever {
 					pr, clause = replayProp, "resume-sequence"
 				}
 				if s.idClass == idNewest && s.idLpos >= 0 {
@@ -1266,6 +1287,16 @@ func (w *joeWorld) checkDeliveries() {
 				}
 				o.violate(pr, clause, "sub%d (topics %s, presented %s, accepted at |L|=%d) received %s, want a prefix of %s; L=%s",
 					s.id, fmtTopics(s.topics), s.idDesc, s.acceptLpos, tagsOf(sent), w.lTagsAt(expect), w.lTags())
+				if s.idClass == idUnset && w.rep.inner != nil && pr != replayProp {
+					// a subscriber with nothing to resume from got something from the replayer
+					for _, p := range lseq {
+						if p < s.acceptLpos {
+							o.violate(replayProp, "resume-unset", "sub%d (topics %s) presented no ID but was replayed %s, put before its subscription was accepted at |L|=%d; L=%s",
+								s.id, fmtTopics(s.topics), L[p].tag, s.acceptLpos, w.lTags())
+							break
+						}
+					}
+				}
 				continue
 			}
 			// must-include
